@@ -26,6 +26,11 @@ func entryPoints() []Call {
 		{Name: "del", Slot: 0}, {Name: "delall"}, {Name: "deleteobjects"}, {Name: "sdel", Field: "A", Cmp: ">=", Probe: 2}, {Name: "sdel", Field: "P", Cmp: ">=", Probe: 0},
 		{Name: "commit"}, {Name: "flushall"}, {Name: "flushallc"}, {Name: "flushandcommit", Slot: 0},
 		{Name: "control"}, {Name: "create"}, {Name: "repair"}, {Name: "close"},
+		// calls that end in an error path
+		{Name: "orbad", V: 0}, {Name: "orbad", V: 1}, {Name: "orbad", V: 2}, {Name: "andbad", V: 0}, {Name: "andbad", V: 1},
+		{Name: "searchbad"}, {Name: "insbad"}, {Name: "getabsent"},
+		// live settings changes (stop / restart of the background writer)
+		{Name: "settings", V: 0}, {Name: "settings", V: 2}, {Name: "settings", V: 5},
 	}
 }
 
@@ -74,7 +79,15 @@ func runC09(c *Ctx) {
 							bound = 1
 						}
 						st := exploreSchedules(bound, 200000, func(prefix []int) *vrt.Exec {
-							r := runProg(prog, prefix, bound, nil)
+							r := runProg(prog, prefix, bound, func(w *World, r *ExecResult) {
+								// whatever happened, the handle must still serve a reader and a writer
+								// (a lock leaked on an error path only shows on the next call)
+								w.DB.Count(&Rec{})
+								w.DB.Commit(&Rec{})
+								vrt.Tick(2)
+								w.DB.Count(&Rec{})
+								w.DB.Commit(&Rec{})
+							})
 							if !r.Started && r.W != nil && len(r.W.Viol) > 0 {
 								c.Count("setup_failures", 1)
 							}
